@@ -493,6 +493,12 @@ func (e *E3) idxTblSlice(b *ssa.BasicBlock, x *ssa.Slice) (ok bool, msg string, 
 	return true, fmt.Sprintf("table %s non-decreasing, last entry %d ≤ %d", globalName(g1), vals[len(vals)-1], n), true
 }
 
+// trustedNonNegArg: callee → index (receiver = 0) of the count argument that must not be negative.
+var trustedNonNegArg = map[string]int{
+	"(*bytes.Buffer).Grow": 1, "(*strings.Builder).Grow": 1, "strings.Repeat": 1, "bytes.Repeat": 1,
+	"(*bytes.Buffer).Truncate": 1,
+}
+
 // callReqOb: arguments handed to callees that require a minimum length.
 func (e *E3) callReqOb(f *ssa.Function, fb *fnBnd, b *ssa.BasicBlock, site ssa.CallInstruction,
 	add func(ssa.Instruction, string, string, bool, string, string)) {
@@ -519,6 +525,18 @@ func (e *E3) callReqOb(f *ssa.Function, fb *fnBnd, b *ssa.BasicBlock, site ssa.C
 					reqs[i] = n
 					who = fnName(g)
 				}
+			}
+		}
+	}
+	// standard-library calls that panic on a negative count — with a string, which a `state.(error)` recover frame
+	// cannot even contain
+	if sc := c.StaticCallee(); sc != nil {
+		if ai, ok := trustedNonNegArg[sc.String()]; ok && ai < len(args) {
+			key := fmt.Sprintf("arg-nonneg | %s | %s ≥ 0", sc.String(), shortVal(args[ai]))
+			if e.ProveLE(b, zeroT, e.termOf(args[ai]), 0) {
+				add(site, "call-req", key, true, "argument proved non-negative", "")
+			} else {
+				add(site, "call-req", key, false, "", fmt.Sprintf("%s panics (with a string, not an error) on a negative count and %s is not proved non-negative", sc.String(), shortVal(args[ai])))
 			}
 		}
 	}
